@@ -409,6 +409,23 @@ static bool hashmap_extract_kv(TypeInfo *hm_info, Type *out_key, Type *out_value
     return true;
 }
 
+/* Element type of `(at g i)` when g is a variable of type array<array<T>>: T
+ * (TYPE_UNKNOWN when the expression is anything else) */
+Type nested_array_element_type(ASTNode *array_expr, Environment *env) {
+    if (!array_expr || array_expr->type != AST_CALL || !array_expr->as.call.name ||
+        array_expr->as.call.arg_count < 1 ||
+        (strcmp(array_expr->as.call.name, "at") != 0 && strcmp(array_expr->as.call.name, "array_get") != 0)) {
+        return TYPE_UNKNOWN;
+    }
+    ASTNode *outer = array_expr->as.call.args[0];
+    if (!outer || outer->type != AST_IDENTIFIER) return TYPE_UNKNOWN;
+    Symbol *sym = env_get_var_visible_at(env, outer->as.identifier, outer->line, outer->column);
+    if (!sym || sym->type != TYPE_ARRAY || !sym->type_info) return TYPE_UNKNOWN;
+    TypeInfo *row = sym->type_info->element_type;
+    if (!row || row->base_type != TYPE_ARRAY || !row->element_type) return TYPE_UNKNOWN;
+    return row->element_type->base_type;
+}
+
 /* Helper: Get the struct type name from an expression (returns NULL if not a struct) */
 const char *get_struct_type_name(ASTNode *expr, Environment *env) {
     if (!expr) return NULL;
@@ -2037,6 +2054,12 @@ static Type check_expression_impl(ASTNode *expr, Environment *env) {
                                 }
                             }
                         }
+                    }
+
+                    /* An element of an element of an array<array<T>> */
+                    Type nested_elem = nested_array_element_type(array_arg, env);
+                    if (nested_elem != TYPE_UNKNOWN) {
+                        return nested_elem;
                     }
 
                     /* Calls that return byte arrays */
